@@ -169,7 +169,7 @@ def generate(rng: random.Random, w: Optional[int] = None, n_statements: Optional
     flaw = None
     if flaws and rng.random() < 0.18:
         flaw = rng.choice(['segment-overlap', 'segment-unaligned', 'reserve-unaligned', 'beyond-memory', 'pad-unaligned',
-                           'segment-odd-word', 'reserve-odd-words'])
+                           'segment-odd-word', 'reserve-odd-words', 'word-out-of-range'])
     flaw_at = rng.randrange(1, n + 1) if flaw else -1
     seg_starts = [0]
     extents: List[Tuple[int, int]] = []  # (first bit, last bit exclusive) of statement areas per segment, for overlap planning
@@ -178,7 +178,7 @@ def generate(rng: random.Random, w: Optional[int] = None, n_statements: Optional
         if index == flaw_at:
             kind = {'segment-overlap': 'segment', 'segment-unaligned': 'segment', 'segment-odd-word': 'segment',
                     'reserve-unaligned': 'reserve', 'reserve-odd-words': 'reserve', 'beyond-memory': 'segment',
-                    'pad-unaligned': 'pad'}[flaw]  # type: ignore[index]
+                    'pad-unaligned': 'pad', 'word-out-of-range': 'fj'}[flaw]  # type: ignore[index]
         elif index == 0:
             kind = 'fj'
         else:
@@ -331,6 +331,10 @@ def generate(rng: random.Random, w: Optional[int] = None, n_statements: Optional
             form = st['form']
             f_val = some_address() if 'f' in form else 0
             j_val = some_target() if 'j' in form else dollar
+            if flaw == 'word-out-of-range' and not model.impossible and 'j' in form and i >= flaw_at:
+                # a word that does not fit w bits: negative, or 2^w and above (no version of the file format can hold it)
+                j_val = rng.choice([-1, -rng.randrange(1, 1 << 12) * w, 1 << w, (1 << w) + rng.randrange(0, 1 << 12) * w, -(1 << w)])
+                model.impossible.append('a jump word outside [0, 2^w)')
             base = st['addr'] // w
             model.words[base], model.words[base + 1] = f_val, j_val
             model.word_owner[base] = model.word_owner[base + 1] = i
